@@ -34,30 +34,30 @@ T = 'Pamqp.Props.'
 REGISTRY = {
     'C01': dict(mods=['C01', 'C03'], thms=['C01_catalogue_wf', 'C01_catalogue_count', 'C01_roundtrip_generic', 'C01_method_roundtrip', 'C01_scalar_args_exact', 'C01_none_table'],
                 tie=['tieA_table_mapping', 'tieA_methods', 'tieA_struct_formats', 'tieA_struct_uses', 'tieA_frame_struct_uses', 'tieA_frame_constants'],
-                lanes=['args', 'frame', 'enc_prim', 'dec_prim'], oracles=['c01']),
+                lanes=['args/args.marshal,args.unmarshal', 'frame/frame.marshal,frame.unmarshal', 'enc_prim', 'dec_prim'], oracles=['c01']),
     'C02': dict(mods=['C02'], thms=['C02_flags_wf', 'C02_flags_msb_first', 'C02_class_id', 'C02_roundtrip_generic', 'C02_header_roundtrip', 'C02_signed_flag_word', 'C02_cluster_id_default'],
                 tie=['tieA_methods', 'tieA_struct_formats', 'tieA_struct_uses', 'tieA_frame_struct_uses'],
-                lanes=['props', 'frame'], oracles=['c02']),
+                lanes=['props', 'frame/frame.marshal,frame.unmarshal'], oracles=['c02']),
     'C03': dict(mods=['C03'], thms=['C03_value_roundtrip', 'C03_table_roundtrip', 'C03_array_roundtrip', 'C03_type_preserved', 'C03_int_bool_exact', 'C03_keys_preserved', 'C03_decimal_value'],
                 tie=['tieA_table_mapping', 'tieA_struct_formats', 'tieA_struct_uses', 'tieA_ladder'],
                 lanes=['enc_prim', 'enc_tint', 'enc_value:ok', 'dec_prim', 'dec_value:wellformed', 'cpython_utf8', 'cpython_f32'], oracles=['c03']),
-    'C04': dict(mods=['C04'], thms=['C04_value_refines_spec', 'C04_method_payload_refines_spec', 'C04_envelope_layout', 'C04_header_payload_layout'],
+    'C04': dict(mods=['C04'], thms=['C04_value_refines_spec', 'C04_value_sorted', 'C04_args_refine_spec', 'C04_envelope_layout', 'C04_header_payload_layout', 'C04_fixed_frames'],
                 tie=['tieA_methods', 'tieA_struct_formats', 'tieA_struct_uses', 'tieA_frame_struct_uses', 'tieA_frame_constants', 'tieA_ladder'],
-                lanes=['enc_prim', 'enc_tint', 'enc_value:ok', 'enc_value:any', 'args', 'props', 'frame', 'cpython_sort'], oracles=['c04']),
-    'C05': dict(mods=['C05'], thms=['C05_decode_agrees_value', 'C05_parse_wire', 'C05_no_validation', 'C05_timestamp_refused', 'C05_timestamp_ms'],
+                lanes=['enc_prim', 'enc_tint', 'enc_value:ok', 'enc_value:any', 'args/args.marshal', 'props/props.marshal', 'frame/frame.marshal', 'cpython_sort', 'spec/spec.enc,spec.args'], oracles=['c04']),
+    'C05': dict(mods=['C05'], thms=['C05_decode_agrees_value', 'C05_decode_agrees_table', 'C05_parse_wire', 'C05_no_validation', 'C05_timestamp_refused', 'C05_timestamp_ms'],
                 tie=['tieA_table_mapping', 'tieA_methods', 'tieA_struct_formats', 'tieA_struct_uses'],
-                lanes=['dec_prim', 'dec_value:wellformed', 'args', 'props', 'frame'], oracles=['c05']),
+                lanes=['dec_prim', 'dec_value:wellformed', 'args/args.unmarshal', 'props/props.unmarshal,flags', 'frame/frame.unmarshal', 'spec/spec.parse'], oracles=['c05']),
     'C06': dict(mods=['C06'], thms=['C06_prefix_determines', 'C06_envelope', 'C06_stream'],
-                tie=['tieA_frame_struct_uses', 'tieA_frame_constants'], lanes=['frame'], oracles=['c06']),
+                tie=['tieA_frame_struct_uses', 'tieA_frame_constants'], lanes=['frame/frame.unmarshal,frame.unmarshal.malformed'], oracles=['c06']),
     'C07': dict(mods=['C07'], thms=['C07_prefix_rejected'],
-                tie=['tieA_frame_struct_uses', 'tieA_frame_constants', 'tieA_frame_except_sites'], lanes=['frame'], oracles=['c07']),
+                tie=['tieA_frame_struct_uses', 'tieA_frame_constants', 'tieA_frame_except_sites'], lanes=['frame/frame.marshal,frame.unmarshal.malformed'], oracles=['c07']),
     'C08': dict(mods=['C08'], thms=['C08_value_fuel_suffices', 'C08_table_fuel_suffices', 'C08_value_fuel_monotone', 'C08_unmarshal_terminates', 'C08_progress', 'C08_flags_progress', 'C08_result_size'],
-                tie=['tieA_table_mapping'], lanes=['dec_value:malformed', 'props', 'frame'], oracles=['c08']),
+                tie=['tieA_table_mapping'], lanes=['dec_value:malformed', 'props/flags,props.unmarshal', 'frame/frame.unmarshal,frame.unmarshal.malformed'], oracles=['c08']),
     'C09': dict(mods=['C09'], thms=['C09_inner_errors', 'C09_only_unmarshaling'],
-                tie=['tieA_frame_except_sites', 'tieA_decode_except_sites'], lanes=['dec_prim', 'dec_value:malformed', 'frame'], oracles=['c09']),
+                tie=['tieA_frame_except_sites', 'tieA_decode_except_sites'], lanes=['dec_prim', 'dec_value:malformed', 'frame/frame.unmarshal.malformed'], oracles=['c09']),
     'C10': dict(mods=['C10'], thms=['C10_value', 'C10_accepts_only_encodable', 'C10_field_table_domain', 'C10_args'],
                 tie=['tieA_guards', 'tieA_ladder', 'tieA_struct_formats', 'tieA_struct_uses'],
-                lanes=['enc_prim', 'enc_tint', 'enc_value:any', 'args', 'props'], oracles=['c10']),
+                lanes=['enc_prim', 'enc_tint', 'enc_value:any', 'args', 'props/props.marshal,props.unmarshal'], oracles=['c10']),
     'C11': dict(mods=['C11'], thms=['C11_first_fit', 'C11_legacy', 'C11_domain', 'C11_fixed_width_guards', 'C11_fixed_width_accept', 'C11_nested_same_chain', 'C11_toggle'],
                 tie=['tieA_ladder', 'tieA_guards', 'tieA_toggle'], lanes=['enc_tint', 'enc_prim', 'api_seq'], oracles=['c11']),
     'C12': dict(mods=['C12'], thms=['C12_perm_invariant', 'C12_table_perm_invariant', 'C12_sorted', 'C12_sorted_perm', 'C12_order_total', 'C12_order_antisymm'],
@@ -73,11 +73,11 @@ REGISTRY = {
     'C17': dict(mods=['C17'], thms=['C17_reply_codes', 'C17_class_mapping', 'C17_code_list', 'C17_constants'],
                 tie=['tieA_reply_codes', 'tieA_class_mapping', 'tieA_frame_constants'], lanes=[], oracles=['c17']),
     'C18': dict(mods=['C18'], thms=['C18_body', 'C18_heartbeat', 'C18_protocol_header'],
-                tie=['tieA_frame_struct_uses', 'tieA_frame_constants'], lanes=['frame'], oracles=['c18']),
+                tie=['tieA_frame_struct_uses', 'tieA_frame_constants'], lanes=['frame/frame.marshal,frame.unmarshal'], oracles=['c18']),
     'C19': dict(mods=['C19'], thms=['C19_slots_distinct', 'C19_mapping', 'C19_amqp_type'],
                 tie=[], lanes=['ctor'], oracles=['c19']),
     'C20': dict(mods=['C20'], thms=['C20_short', 'C20_parts', 'C20_ranges', 'C20_peek_agrees'],
-                tie=['tieA_frame_struct_uses', 'tieA_frame_constants', 'tieA_frame_except_sites'], lanes=['frame'], oracles=['c20']),
+                tie=['tieA_frame_struct_uses', 'tieA_frame_constants', 'tieA_frame_except_sites'], lanes=['frame/frame.parts,frame.marshal,frame.unmarshal'], oracles=['c20']),
 }
 
 TRUSTED_BASE = [
@@ -112,6 +112,16 @@ class Lock:
         self.f.close()
 
 
+def tie_module(name):
+    """tieA_frame_struct_uses -> Pamqp.Props.TieA.FrameStructUses"""
+    return 'Pamqp.Props.TieA.' + ''.join(w.capitalize() for w in name[len('tieA_'):].split('_'))
+
+
+def lean_targets(pid):
+    reg = REGISTRY[pid]
+    return [T + m for m in reg['mods']] + [tie_module(t) for t in reg['tie']]
+
+
 def prepare(pid, need_driver=True):
     """translate + build; -> dict(build_ok, driver_ok, log, broken_modules)"""
     info = {'translate': None, 'build_ok': True, 'driver_ok': True, 'log': '', 'failed_modules': []}
@@ -123,7 +133,7 @@ def prepare(pid, need_driver=True):
             info['log'] = 'translator failed:\n' + out[-3000:]
             info['translator_failed'] = True
             return info
-        targets = [T + m for m in REGISTRY[pid]['mods']] + ['Pamqp.Props.TieA']
+        targets = lean_targets(pid)
         rc, out = sh(['lake', 'build'] + targets, cwd=LEAN)
         if rc != 0:
             info['build_ok'] = False
@@ -141,7 +151,7 @@ def audit(pid, work):
     """#print axioms for every theorem of the property + forbidden-construct scan of the sources"""
     reg = REGISTRY[pid]
     names = [T + t for t in reg['thms'] + reg['tie']]
-    src = 'import Pamqp\n' if False else ''.join('import %s%s\n' % (T, m) for m in reg['mods']) + 'import Pamqp.Props.TieA\n'
+    src = ''.join('import %s\n' % m for m in lean_targets(pid))
     src += ''.join('#print axioms %s\n' % n for n in names)
     path = os.path.join(work, 'Audit_%s.lean' % pid)
     with open(path, 'w') as f:
@@ -155,7 +165,7 @@ def audit(pid, work):
     missing = [n for n in names if n not in res]
     bad = {n: a for n, a in res.items() if set(a) - STD_AXIOMS}
     hits = []
-    for rel in sorted(transitive_sources([T + m for m in reg['mods']] + ['Pamqp.Props.TieA'])):
+    for rel in sorted(transitive_sources(lean_targets(pid))):
         text = open(os.path.join(LEAN, rel), encoding='utf-8').read()
         text = re.sub(r'/-.*?-/', '', text, flags=re.S)
         text = re.sub(r'--[^\n]*', '', text)
@@ -209,10 +219,14 @@ def run_lanes(ctx, names):
     import lanes
     out = []
     for name in names:
+        name, _, keep = name.partition('/')
         parts = name.split(':')
         fn = getattr(lanes, 'lane_' + parts[0])
         res = fn(ctx, *parts[1:])
-        out += res if isinstance(res, list) else [res]
+        res = res if isinstance(res, list) else [res]
+        if keep:      # only these sub-lanes are what the property depends on
+            res = [r for r in res if r['lane'] in keep.split(',')]
+        out += res
     return out
 
 
@@ -334,7 +348,7 @@ def run(pid, args, seed, work, t0):
         'property_id': pid, 'tier': args.tier, 'seed': seed, 'level': 'proof',
         'coverage': {
             'obligations': obligations, 'discharged': discharged,
-            'checker_cmd': 'cd lean && lake build %s Pamqp.Props.TieA && lake env lean <#print axioms of every listed theorem>' % ' '.join(T + m for m in reg['mods']),
+            'checker_cmd': 'cd lean && lake build %s && lake env lean <#print axioms of every listed theorem>' % ' '.join(lean_targets(pid)),
             'trusted_base': TRUSTED_BASE,
             'theorems': {T + t: aud['axioms'].get(T + t) for t in reg['thms']},
             'tie_a_obligations': {T + t: aud['axioms'].get(T + t) for t in reg['tie']},
